@@ -60,6 +60,7 @@ type tcase struct {
 	Acc   bool     `json:"acc"`
 	Why   string   `json:"why"`
 	Valid bool     `json:"valid"`
+	Unj   bool     `json:"unjudged"`
 	M     mcase    `json:"m"`
 	New   bool     `json:"new"`
 	OK    bool     `json:"ok"`
@@ -196,6 +197,22 @@ func mutate(ts string, s *ssh.Signature, c vcase, h uint64) (*ssh.Signature, err
 		} else {
 			flipAt(3)
 		}
+	case "prefix01":
+		s.Blob = append([]byte{0x01}, s.Blob...)
+	case "prefixFF":
+		s.Blob = append([]byte{0xff}, s.Blob...)
+	case "prefix00":
+		s.Blob = append([]byte{0x00}, s.Blob...)
+	case "prefixMany":
+		pre := make([]byte, 2+h%31)
+		for i := range pre {
+			pre[i] = byte(h >> (uint(i) % 56))
+		}
+		if h%3 == 0 {
+			pre[0] = 0 // a zero first, then non-zero bytes
+			pre[len(pre)-1] |= 1
+		}
+		s.Blob = append(pre, s.Blob...)
 	case "trail":
 		s.Blob = append(s.Blob, byte(h>>8))
 	case "trunc":
@@ -328,8 +345,7 @@ func (w *world) part1(out *vutil.Out, tc tcase, line []byte) (bad bool, err erro
 			"verify_key_b64": base64.StdEncoding.EncodeToString(kv.Marshal()), "sig_format": sig.Format,
 			"sig_blob_b64": base64.StdEncoding.EncodeToString(sig.Blob), "sig_rest_b64": base64.StdEncoding.EncodeToString(sig.Rest)}
 	}
-	benign := c.Mu == "rsaShort" || c.Mu == "ecdsaPadR" || c.Mu == "ecdsaNegS"
-	if benign {
+	if tc.Unj {
 		// same signature value in another encoding / algebraic twin: reported, not judged
 		if acc {
 			bump(out, "benign_variant_accepted:"+c.Mu)
